@@ -9,7 +9,9 @@ import numpy as np
 from .common import Disagreement, drive, q, qs, parse_qs, ROOT
 
 PROP_MODULE = 'PbVerif.Props.C14'
-RULE = ('cases = (method, N or shape, half window(s), filter order, window order, data kind, shift); bit-exact model '
+RULE = ('cases = (method, N or shape, half window(s), filter order, window order, data kind, data magnitude (offsets 1e6 ... 1e9 under '
+        'integer / half-integer data: every law stays bit-exact; small-amplitude float data on such offsets: inequalities exact, shift '
+        'laws to a few ulp of |y| + |c|), shift (small, and 1e6 ... 1e9)); bit-exact model '
         'comparison on integer/half-integer data; non-trivial = data not constant and window >= 1; distinct by canonical tuple')
 ASSUMPTIONS = [
     'scipy.ndimage grey_erosion/grey_dilation/grey_opening implement flat reflect-mode morphology (their specification is the model; diffed bit-exactly)',
@@ -46,6 +48,50 @@ def data_1d(rng, n, kind):
 
 
 KINDS = ['int', 'half', 'plateau', 'monotone', 'negative', 'peaks']
+EPS = float(np.finfo(float).eps)
+# data-magnitude kinds: the laws of C14 hold for ALL data, also a small signal on a huge pedestal and a huge shift
+OFFSETS = [1e6, 1e9, -1e9, 1e7, 1e8, -1e6]
+BIG_SHIFTS = [1e6, -1e9, 1e9, 123456789.0, -1e7, 1e8]
+FLOAT_AMPS = [1.0, 1e-3, 30.0]
+
+
+def cyc(seq, start=0):
+    i = start
+    while True:
+        yield seq[i % len(seq)]
+        i += 1
+
+
+def float_data(rng, n, off, amp):
+    """small-amplitude float signal on a pedestal (not exactly representable sums: only the exact inequalities, the bit-exact tophat
+    laws and the shift laws to rounding are demanded)"""
+    x = np.arange(n)
+    return off + amp * (rng.normal(0, 1, n) + 3 * np.exp(-0.5 * ((x - n / 2) / max(n / 8, 1)) ** 2) + 0.02 * x)
+
+
+def is_exact(y):
+    y = np.asarray(y, dtype=float)
+    return bool(np.all(y * 2 == np.round(y * 2)) and np.max(np.abs(y)) < 2.0 ** 50)
+
+
+def shift_ok(nm, b1, b0, c, y):
+    """f(y + c) == f(y) + c.  tophat: bit-exact for ANY data (min / max commute with the monotone map v -> fl(v + c)); mor and the
+    2-D versions: bit-exact when y, y + c and the half sums are exactly representable, else to 8 ulp of |y| + |c|"""
+    if nm.startswith('tophat') or (is_exact(y) and is_exact(np.asarray(y) + c)):
+        return bool(np.array_equal(b1, b0 + c))
+    return bool(np.allclose(b1, b0 + c, rtol=0, atol=8 * EPS * (float(np.max(np.abs(y))) + abs(c))))
+
+
+def snip_shift_tol(y, c):
+    """each pass replaces a point by the smaller of itself and a filter value (coefficient sums <= 16/6 in absolute value): a few
+    roundings of size eps * (|y| + |c|) per pass, at most N / 2 passes"""
+    return 16 * EPS * (len(y) + 8) * (float(np.max(np.abs(y))) + abs(c))
+
+
+def rb_tol(scale):
+    """np.interp through the hull vertices is within 8 ulp of max|y| of the exact interpolant (ASSUMPTIONS); 64 eps leaves room and is
+    RELATIVE to the data, whatever their magnitude"""
+    return 64 * EPS * scale
 
 
 def exact_list(a, pred):
@@ -95,6 +141,24 @@ def rubberband_sections(n, segments):
     return [int(v) for v in np.unique(np.concatenate(([0], np.asarray(segments, dtype=np.intp), [n])))]
 
 
+def rubberband_direct(x, y, b, mask, b1, c):
+    """the float-level clauses of the rubberband statement, every tolerance relative to the data: (stage, signature, text, check)"""
+    scale = max(1.0, float(np.max(np.abs(y))))
+    if np.any(b > y + rb_tol(scale)):
+        k = int(np.argmax(b - y))
+        return ('le', 'le:rubberband', f'rubberband baseline exceeds the data at index {k} ({b[k]!r} > {y[k]!r})', 'le')
+    if not np.allclose(b[mask], y[mask], rtol=0, atol=rb_tol(scale)):
+        return ('hull', 'hull:touch', 'rubberband baseline does not touch the data at the hull vertices', 'touch')
+    dx = np.diff(x)
+    sl = np.diff(b) / dx
+    # b carries up to 8 ulp of max|y| per point, a slope up to twice that over the smallest step
+    if np.any(np.diff(sl) < -1e-9 * max(1.0, float(np.max(np.abs(sl)))) - 4 * rb_tol(scale) / float(np.min(dx))):
+        return ('hull', 'hull:convex', 'rubberband baseline is not convex', 'convex')
+    if b1 is not None and not np.allclose(b1, b + c, rtol=0, atol=rb_tol(scale + abs(c))):
+        return ('shift', 'shift:rubberband', f'rubberband does not commute with a shift (off by {float(np.max(np.abs(b1 - b - c))):.3g})', 'shift')
+    return None
+
+
 def correspond(ctx):
     from pybaselines import Baseline, Baseline2D
     from pybaselines.utils import pad_edges
@@ -119,16 +183,29 @@ def correspond(ctx):
 
     reps = 4 if ctx.thorough else 1
     sizes = [3, 4, 5, 7, 10, 16, 31] + ([64, 150] if ctx.thorough else [])
+    offs, bigs, amps = cyc(OFFSETS, ctx.seed), cyc(BIG_SHIFTS, ctx.seed), cyc(FLOAT_AMPS, ctx.seed)
+    tick = 0
     for _ in range(reps):
         for n in sizes:
             fit = Baseline()
-            for kind in KINDS:
-                y = data_1d(rng, n, kind)
+            for kind in KINDS + ['float']:
+                tick += 1
+                if kind == 'float':
+                    off = next(offs)
+                    y = float_data(rng, n, off, next(amps))
+                else:
+                    # every second data set sits on a pedestal of 1e6 ... 1e9 (still exactly representable: the laws stay bit-exact)
+                    off = next(offs) if tick % 2 else 0.0
+                    y = data_1d(rng, n, kind) + off
+                exact_y = is_exact(y)
                 hs = sorted({1, 2, max(1, (n - 1) // 2), n // 2 + 1, n + 2, int(rng.integers(1, n + 1))})
-                for h in hs:
-                    c = float(rng.integers(-50, 51))
-                    meta = {'method': 'tophat', 'n': n, 'h': h, 'kind': kind, 'y': y.tolist(), 'shift': c}
+                for ih, h in enumerate(hs):
+                    # shifts: small ones and 1e6 ... 1e9, alternating
+                    c = float(rng.integers(-50, 51)) if (ih + tick) % 2 else next(bigs)
+                    meta = {'method': 'tophat', 'n': n, 'h': h, 'kind': kind, 'y': y.tolist(), 'shift': c, 'offset': off}
                     ctx.count('1d:' + kind)
+                    ctx.count('1d:offset:%g' % off)
+                    ctx.count('1d:shift:' + ('small' if abs(c) <= 50 else '%g' % c))
                     ctx.count('window:' + ('>N/2' if 2 * h + 1 > n else '<=N'))
                     try:
                         bt = fit.tophat(y, half_window=h)[0]
@@ -143,8 +220,8 @@ def correspond(ctx):
                     ctx.case(('1d', n, h, kind, tuple(y.tolist())), nontrivial=bool(np.ptp(y) > 0),
                              sample={'method': 'tophat/mor/imor', 'N': n, 'half_window': h, 'data': kind} if n == 7 else None)
                     add(f'c14.tophat {h} {qs(y)}', bt, dict(meta, method='tophat'))
-                    add(f'c14.mor {h} {qs(y)}', bm, dict(meta, method='mor'))
-                    add(f'c14.imor {h} {k} {qs(y)}', bi, dict(meta, method='imor', k=k))
+                    add(f'c14.mor {h} {qs(y)}', bm, dict(meta, method='mor'), exact=exact_y)
+                    add(f'c14.imor {h} {k} {qs(y)}', bi, dict(meta, method='imor', k=k), exact=exact_y)
                     # direct property checks on the real code (exact: only min/max and halving are involved)
                     for nm, b in (('tophat', bt), ('mor', bm), ('imor', bi), ('imor', bi_def)):
                         if not np.all(b <= y):
@@ -156,8 +233,9 @@ def correspond(ctx):
                     for nm in ('tophat', 'mor'):
                         b0 = bt if nm == 'tophat' else bm
                         b1 = getattr(fit, nm)(y + c, half_window=h)[0]
-                        if not np.array_equal(b1, b0 + c):
-                            dis.append(Disagreement('c14.shift', f'shift:{nm}', f'{nm}(y+{c}) != {nm}(y)+{c} (N={n}, h={h}, {kind})',
+                        if not shift_ok(nm, b1, b0, c, y):
+                            dis.append(Disagreement('c14.shift', f'shift:{nm}', f'{nm}(y+{c}) != {nm}(y)+{c} by {float(np.max(np.abs(b1 - (b0 + c)))):.3g} '
+                                                    f'(N={n}, h={h}, {kind} data on the offset {off:g})',
                                                     dict(meta, method=nm, check='shift'), True))
     # snip
     for _ in range(reps):
@@ -166,7 +244,9 @@ def correspond(ctx):
             for order in (2, 4, 6, 8):
                 for dec in (False, True):
                     kind = KINDS[int(rng.integers(0, len(KINDS)))]
-                    y = data_1d(rng, n, kind)
+                    tick += 1
+                    off = next(offs) if tick % 2 else 0.0
+                    y = data_1d(rng, n, kind) + off
                     lim = max((n - 1) // 2, 1)
                     hw = [int(rng.integers(1, lim + 1)), int(rng.integers(1, lim + 1))]
                     if rng.random() < 0.4:
@@ -174,11 +254,13 @@ def correspond(ctx):
                     if (n - 1) // 2 < 1:
                         continue
                     mode = ['edge', 'reflect', 'constant', 'extrapolate'][int(rng.integers(0, 4))]
-                    c = float(rng.integers(-60, 61))
+                    c = float(rng.integers(-60, 61)) if (tick // 2) % 2 else next(bigs)
                     pk = {'mode': mode} if mode != 'extrapolate' else {'mode': 'extrapolate', 'extrapolate_window': 2}
                     meta = {'method': 'snip', 'n': n, 'order': order, 'decreasing': dec, 'hw': hw, 'kind': kind,
-                            'y': y.tolist(), 'shift': c, 'pad_kwargs': pk}
+                            'y': y.tolist(), 'shift': c, 'pad_kwargs': pk, 'offset': off}
                     ctx.count('snip:order%d' % order)
+                    ctx.count('snip:offset:%g' % off)
+                    ctx.count('snip:shift:' + ('small' if abs(c) <= 60 else '%g' % c))
                     ctx.count('snip:pad:' + mode)
                     try:
                         b = fit.snip(y, max_half_window=hw, decreasing=dec, filter_order=order, pad_kwargs=pk)[0]
@@ -191,12 +273,13 @@ def correspond(ctx):
                                      'pad': mode} if n == 13 and order == 6 else None)
                     M = max(hw)
                     padded = pad_edges(y, M, **pk)
-                    add(f'c14.snip {order} {hw[0]} {hw[1]} {int(dec)} {qs(padded)}', b, meta, exact=(order == 2 and mode != 'extrapolate'))
+                    # order 2 halves a sum per pass: exact in doubles while (bits of the pedestal) + (number of passes) fit the mantissa
+                    fits53 = np.log2(max(2.0, float(np.max(np.abs(y))))) + M + 3 <= 52
+                    add(f'c14.snip {order} {hw[0]} {hw[1]} {int(dec)} {qs(padded)}', b, meta, exact=(order == 2 and mode != 'extrapolate' and (off == 0.0 or fits53)))
                     if not np.all(b <= y):
                         dis.append(Disagreement('c14.le', 'le:snip', f'snip baseline exceeds the data (N={n}, order={order}, hw={hw})',
                                                 dict(meta, check='le'), True))
-                    scale = max(1.0, float(np.max(np.abs(y))) + abs(c))
-                    if mode != 'constant' and not np.allclose(b1, b + c, rtol=0, atol=1e-9 * scale):
+                    if mode != 'constant' and not np.allclose(b1, b + c, rtol=0, atol=snip_shift_tol(y, c)):
                         dis.append(Disagreement('c14.shift', 'shift:snip', f'snip(y+{c}) != snip(y)+{c} by '
                                                 f'{float(np.max(np.abs(b1 - b - c))):.3g} (N={n}, order={order}, hw={hw}, dec={dec}, {kind}, pad={mode})',
                                                 dict(meta, check='shift'), True))
@@ -239,10 +322,14 @@ def correspond(ctx):
             fit2 = Baseline2D()
             for (hr, hc) in window_pairs(m, n):
                 kind = kinds2[int(rng.integers(0, len(kinds2)))]
-                Y = data_2d(m, n, kind)
-                c = float(rng.integers(-50, 51))
+                tick += 1
+                off = next(offs) if tick % 2 else 0.0            # a pedestal of 1e6 ... 1e9 under the integer-valued data (still bit-exact)
+                Y = data_2d(m, n, kind) + off
+                c = float(rng.integers(-50, 51)) if (tick // 2) % 2 else next(bigs)
                 size = (2 * hr + 1, 2 * hc + 1)
-                meta = {'method': 'tophat2d', 'shape': [m, n], 'h': [hr, hc], 'kind': kind, 'Y': Y.tolist(), 'shift': c}
+                meta = {'method': 'tophat2d', 'shape': [m, n], 'h': [hr, hc], 'kind': kind, 'Y': Y.tolist(), 'shift': c, 'offset': off}
+                ctx.count('2d:offset:%g' % off)
+                ctx.count('2d:shift:' + ('small' if abs(c) <= 50 else '%g' % c))
                 ctx.count('2d:' + ('unequal' if hr != hc else 'equal'))
                 ctx.count('2d:window' + ('>axis' if (size[0] > m or size[1] > n) else '<=axis'))
                 if size[0] > m and size[1] <= n or size[0] <= m and size[1] > n:
@@ -297,12 +384,22 @@ def correspond(ctx):
                         dis.append(Disagreement('c14.shift', f'shift:{nm}2d', f'2-D {nm} does not commute with a shift '
                                                 f'(shape {m}x{n}, half_window=({hr},{hc}))', dict(meta, method=nm + '2d', check='shift'), True))
     # rubberband: the returned mask must pass the lower-hull certificate; baseline convex, <= data, touching at vertices
-    for _ in range(60 if ctx.thorough else 20):
+    for irb in range(72 if ctx.thorough else 24):
         n = int(rng.integers(3, 40))
         x = np.cumsum(rng.integers(1, 5, n)).astype(float) if rng.random() < 0.5 else np.arange(n, dtype=float)
-        y = data_1d(rng, n, KINDS[int(rng.integers(0, len(KINDS)))])
-        c = float(rng.integers(-50, 51))
-        meta = {'method': 'rubberband', 'x': x.tolist(), 'y': y.tolist(), 'shift': c}
+        # data magnitude, round-robin: plain / on a pedestal of 1e6 ... 1e9 (exact) / small-amplitude float data on a pedestal
+        dk = ('plain', 'offset', 'offset', 'float')[irb % 4]
+        off = 0.0 if dk == 'plain' else next(offs)
+        if dk == 'float':
+            y = float_data(rng, max(n, 5), off, next(amps))[:n]
+        else:
+            y = data_1d(rng, n, KINDS[int(rng.integers(0, len(KINDS)))]) + off
+        exact_y = is_exact(y)
+        c = float(rng.integers(-50, 51)) if (irb // 4) % 2 else next(bigs)
+        meta = {'method': 'rubberband', 'x': x.tolist(), 'y': y.tolist(), 'shift': c, 'offset': off}
+        ctx.count('rubberband:data:' + dk)
+        ctx.count('rubberband:offset:%g' % off)
+        ctx.count('rubberband:shift:' + ('small' if abs(c) <= 50 else '%g' % c))
         fr = Baseline(x)
         try:
             b, p = fr.rubberband(y)
@@ -315,14 +412,18 @@ def correspond(ctx):
                  sample={'method': 'rubberband', 'N': n} if n < 8 else None)
         ctx.count('rubberband')
         mask = p['mask']
-        lines.append(f'c14.hull {qs(x)} {qs(y)} {",".join(str(int(v)) for v in mask)}')
-        checks.append((None, dict(meta, mask=mask.astype(int).tolist()), 'hull'))
+        if exact_y:
+            # the exact certificate is decided on the rationals of the data; Qhull decides in doubles: demanded on exactly
+            # representable data (whatever their magnitude), where collinearity is not a matter of rounding
+            lines.append(f'c14.hull {qs(x)} {qs(y)} {",".join(str(int(v)) for v in mask)}')
+            checks.append((None, dict(meta, mask=mask.astype(int).tolist()), 'hull'))
+            ctx.count('rubberband:cert')
         # the baseline itself is np.interp through the masked vertices: model `hullInterp` on the same exact rationals
         add_interp(x, y, mask, b, dict(meta, mask=mask.astype(int).tolist(), check='interp'))
         # ... and for the shifted data (theorem lowerHull_shift: same certificate verdict, interpolant + c), with the mask the
         # code returned for y + c
         m1 = p1['mask']
-        if shift_exact(y, c):
+        if exact_y and shift_exact(y, c):
             lines.append(f'c14.hullshift {q(c)} {qs(x)} {qs(y)} {",".join(str(int(v)) for v in m1)}')
             checks.append(((b1, m1, float(np.max(np.abs(y + c)))), dict(meta, mask=m1.astype(int).tolist(), check='interp-shift'), 'interp-shift'))
             ctx.count('rubberband:interp-shift')
@@ -339,20 +440,12 @@ def correspond(ctx):
         else:
             ctx.count('rubberband:weights:' + ('end-dropped' if not (pw['mask'][0] and pw['mask'][-1]) else 'ends-kept'))
             add_interp(x, y, pw['mask'], bw, dict(meta, mask=pw['mask'].astype(int).tolist(), weights=w.tolist(), check='interp'))
-        scale = max(1.0, float(np.max(np.abs(y))))
-        if np.any(b > y + 1e-9 * scale):
-            dis.append(Disagreement('c14.le', 'le:rubberband', 'rubberband baseline exceeds the data', dict(meta, check='le'), True))
-        if not np.allclose(b[mask], y[mask], rtol=0, atol=1e-9 * scale):
-            dis.append(Disagreement('c14.hull', 'hull:touch', 'rubberband baseline does not touch the data at the hull vertices',
-                                    dict(meta, check='touch'), True))
-        sl = np.diff(b) / np.diff(x)
-        if np.any(np.diff(sl) < -1e-9 * max(1.0, float(np.max(np.abs(sl))))):
-            dis.append(Disagreement('c14.hull', 'hull:convex', 'rubberband baseline is not convex', dict(meta, check='convex'), True))
-        if not np.allclose(b1, b + c, rtol=0, atol=1e-9 * (scale + abs(c))):
-            dis.append(Disagreement('c14.shift', 'shift:rubberband', 'rubberband does not commute with a shift', dict(meta, check='shift'), True))
+        why = rubberband_direct(x, y, b, mask, b1, c)
+        if why:
+            dis.append(Disagreement('c14.' + why[0], why[1], why[2] + f' (N={n}, {dk} data on the offset {off:g}, shift {c:g})', dict(meta, check=why[3]), True))
     # rubberband with several segments (integer and explicit boundaries): every segment gets its own lower hull; the baseline
     # stays at or below the data everywhere, touches it at both ends of the data, and commutes with shifts
-    for _ in range(40 if ctx.thorough else 16):
+    for isg in range(40 if ctx.thorough else 16):
         n = int(rng.integers(5, 45))
         seg = int(rng.integers(2, 5))
         if rng.random() < 0.3:
@@ -361,11 +454,14 @@ def correspond(ctx):
         else:
             segarg = seg
         x = np.cumsum(rng.integers(1, 5, n)).astype(float) if rng.random() < 0.5 else np.arange(n, dtype=float)
-        y = data_1d(rng, n, KINDS[int(rng.integers(0, len(KINDS)))])
+        off = next(offs) if isg % 2 else 0.0
+        y = data_1d(rng, n, KINDS[int(rng.integers(0, len(KINDS)))]) + off
         if rng.random() < 0.4:
             y = y - 0.35 * np.arange(n)            # falling data: the tail is the lowest part
-        c = float(rng.integers(-50, 51))
-        meta = {'method': 'rubberband', 'x': x.tolist(), 'y': y.tolist(), 'shift': c, 'segments': segarg}
+        c = float(rng.integers(-50, 51)) if (isg // 2) % 2 else next(bigs)
+        meta = {'method': 'rubberband', 'x': x.tolist(), 'y': y.tolist(), 'shift': c, 'segments': segarg, 'offset': off}
+        ctx.count('rubberband-segments:offset:%g' % off)
+        ctx.count('rubberband-segments:shift:' + ('small' if abs(c) <= 50 else '%g' % c))
         try:
             b, p = Baseline(x).rubberband(y, segments=segarg)
             b1, p1 = Baseline(x).rubberband(y + c, segments=segarg)
@@ -375,20 +471,21 @@ def correspond(ctx):
         ctx.case(('rubberband-segments', n, repr(segarg), tuple(y.tolist())), nontrivial=True)
         ctx.count('rubberband-segments')
         scale = max(1.0, float(np.max(np.abs(y))))
-        if np.any(b > y + 1e-9 * scale):
+        if np.any(b > y + rb_tol(scale)):
             k = int(np.argmax(b - y))
             dis.append(Disagreement('c14.le', 'le:rubberband:segments', f'rubberband(segments={segarg}, N={n}) baseline exceeds the data at index {k} '
-                                    f'({b[k]:.6g} > {y[k]:.6g})', dict(meta, check='le'), True))
-        elif abs(b[0] - y[0]) > 1e-9 * scale or abs(b[-1] - y[-1]) > 1e-9 * scale:
+                                    f'({b[k]!r} > {y[k]!r})', dict(meta, check='le'), True))
+        elif abs(b[0] - y[0]) > rb_tol(scale) or abs(b[-1] - y[-1]) > rb_tol(scale):
             dis.append(Disagreement('c14.hull', 'hull:touch:segments', f'rubberband(segments={segarg}, N={n}) does not touch the data at its end points',
                                     dict(meta, check='touch'), True))
-        if not np.allclose(b1, b + c, rtol=0, atol=1e-9 * (scale + abs(c))):
-            dis.append(Disagreement('c14.shift', 'shift:rubberband:segments', 'rubberband with segments does not commute with a shift', dict(meta, check='shift'), True))
+        if not np.allclose(b1, b + c, rtol=0, atol=rb_tol(scale + abs(c))):
+            dis.append(Disagreement('c14.shift', 'shift:rubberband:segments', f'rubberband with segments does not commute with a shift (N={n}, offset {off:g}, '
+                                    f'shift {c:g}: off by {float(np.max(np.abs(b1 - b - c))):.3g})', dict(meta, check='shift'), True))
         # per segment [l, r): both ends are hull vertices of the segment, so np.interp over the whole mask restricted to the segment
         # is the interpolant through the segment's own masked points: model `hullInterp` per segment; on exactly representable
         # (integer / half-integer) data the segment's part of the mask must also pass the exact certificate
         secs = rubberband_sections(n, segarg)
-        exact_data = bool(np.all(y * 2 == np.round(y * 2)))
+        exact_data = is_exact(y) and is_exact(y + c)
         for (bb, pp, yy) in ((b, p, y), (b1, p1, y + c)):
             mk = pp['mask']
             for l_, r_ in zip(secs[:-1], secs[1:]):
@@ -456,7 +553,7 @@ def replay(ctx, data):
             if chk == 'idem':
                 return None if np.array_equal(f(b, half_window=r['h'])[0], b) else 'not idempotent'
             if chk == 'shift':
-                return None if np.array_equal(f(y + r['shift'], half_window=r['h'])[0], b + r['shift']) else 'shift law fails'
+                return None if shift_ok(m, f(y + r['shift'], half_window=r['h'])[0], b, r['shift'], y) else 'shift law fails'
         if m == 'snip':
             y = np.array(r['y'])
             fit = Baseline()
@@ -466,8 +563,7 @@ def replay(ctx, data):
                 return None if np.all(b <= y) else 'snip exceeds data'
             if chk == 'shift':
                 b1 = fit.snip(y + r['shift'], **kw)[0]
-                sc = max(1.0, float(np.max(np.abs(y))) + abs(r['shift']))
-                return None if np.allclose(b1, b + r['shift'], rtol=0, atol=1e-9 * sc) else \
+                return None if np.allclose(b1, b + r['shift'], rtol=0, atol=snip_shift_tol(y, r['shift'])) else \
                     f'snip shift law fails by {float(np.max(np.abs(b1 - b - r["shift"]))):.3g}'
         if m == 'rubberband':
             x, y = np.array(r['x'], dtype=float), np.array(r['y'], dtype=float)
@@ -478,16 +574,21 @@ def replay(ctx, data):
             mk = p['mask']
             sc = max(1.0, float(np.max(np.abs(y))))
             if chk == 'le':
-                return None if np.all(b <= y + 1e-9 * sc) else 'rubberband baseline exceeds the data'
+                return None if np.all(b <= y + rb_tol(sc)) else 'rubberband baseline exceeds the data'
             if chk == 'touch':
                 ends = [0, -1] if kw else mk
-                return None if np.allclose(b[ends], y[ends], rtol=0, atol=1e-9 * sc) else 'rubberband baseline does not touch the data'
+                return None if np.allclose(b[ends], y[ends], rtol=0, atol=rb_tol(sc)) else 'rubberband baseline does not touch the data'
             if chk == 'convex':
-                sl = np.diff(b) / np.diff(x)
-                return None if np.all(np.diff(sl) >= -1e-9 * max(1.0, float(np.max(np.abs(sl))))) else 'rubberband baseline is not convex'
+                why = rubberband_direct(x, y, b, mk, None, 0.0)
+                return why[2] if why and why[3] == 'convex' else None
             if chk == 'shift':
                 b1 = Baseline(x).rubberband(y + r['shift'], **kw)[0]
-                return None if np.allclose(b1, b + r['shift'], rtol=0, atol=1e-9 * (sc + abs(r['shift']))) else 'shift law fails'
+                return None if np.allclose(b1, b + r['shift'], rtol=0, atol=rb_tol(sc + abs(r['shift']))) else 'shift law fails'
+            if chk == 'cert-shift':
+                y2 = y + r['shift']
+                mk2 = Baseline(x).rubberband(y2, **kw)[1]['mask']
+                cert = drive([f'c14.hull {qs(x)} {qs(y2)} {",".join(str(int(v)) for v in mk2)}'])[0]
+                return None if cert == '1' else 'the mask returned for the shifted data is not the lower convex hull (certificate rejected)'
             if chk in ('cert', 'interp'):
                 l_, r_ = r.get('segment', [0, len(y)])
                 ms = ','.join(str(int(v)) for v in mk[l_:r_])
@@ -523,7 +624,7 @@ def replay(ctx, data):
             if chk == 'idem':
                 return None if np.array_equal(f(b, half_window=tuple(r['h']))[0], b) else 'not idempotent'
             if chk == 'shift':
-                return None if np.array_equal(f(Y + r['shift'], half_window=tuple(r['h']))[0], b + r['shift']) else 'shift law fails'
+                return None if shift_ok(nm, f(Y + r['shift'], half_window=tuple(r['h']))[0], b, r['shift'], Y) else 'shift law fails'
     except Exception as e:
         return f'{type(e).__name__}: {e}'
     return None
